@@ -1209,4 +1209,43 @@ pub mod verif_hooks {
             .map(|p| (p.x_advance, p.y_advance, p.x_offset, p.y_offset))
             .collect()
     }
+
+    /// `position_complex` (the whole "finish off" order of positioning: AAT tracking inside `position_by_plan`, the late
+    /// zeroing of GDEF marks, the zeroing of default ignorables, `position_finish_offsets`, fallback mark positioning) on a
+    /// bare buffer, with a plan compiled for `face` (default shaper, no script).  Items: (cluster, unicode_props,
+    /// glyph_props, trak bit on); positions start as advance 1000 / offset 0 on both axes; `scratch` = buffer scratch flags.
+    pub fn position_complex_of(
+        face: &hb_font_t,
+        dir: Direction,
+        flags: u32,
+        level: u32,
+        scratch: u32,
+        items: &[(u32, u16, u16, bool)],
+    ) -> Vec<(i32, i32, i32, i32)> {
+        let plan = hb_ot_shape_plan_t::new(face, dir, None, None, &[]);
+        let its: Vec<Item> = items.iter().map(|(k, p, g, _)| (0, *k, *p, *g)).collect();
+        let mut b = make_buffer(&its, level, flags, dir);
+        for (info, it) in b.info.iter_mut().zip(items) {
+            info.mask = if it.3 { plan.trak_mask } else { 0 };
+        }
+        b.scratch_flags = scratch;
+        b.have_positions = true;
+        for p in b.pos.iter_mut() {
+            p.x_advance = 1000;
+            p.y_advance = 1000;
+        }
+        {
+            let mut ctx = hb_ot_shape_context_t {
+                plan: &plan,
+                face,
+                buffer: &mut b,
+                target_direction: dir,
+            };
+            position_complex(&mut ctx);
+        }
+        b.pos[..b.len]
+            .iter()
+            .map(|p| (p.x_advance, p.y_advance, p.x_offset, p.y_offset))
+            .collect()
+    }
 }
